@@ -205,6 +205,7 @@ type Req struct {
 	Data []int32 `json:"data,omitempty"`
 	Mode string  `json:"mode,omitempty"`
 	N    int     `json:"n,omitempty"`
+	Cuts []int   `json:"cuts,omitempty"` // readall mode "fifo": byte offsets at which the writer pauses (each part arrives as its own read)
 }
 
 type Step struct {
